@@ -214,12 +214,16 @@ PROPS = {
                 "news file + fresh store; after every step every category's article list (strictly parsed by hlref), every article via "
                 "get-article, and every path's category listing are compared with a model tree; post oracle: exactly one new id not in use, "
                 "requested parent, prev == previously newest id, that article's next == new id, title/poster/body as posted; "
-                "non-trivial = >= 1 delete and >= 2 posts in the history (every step lists everything); distinct = hash(history)",
+                "TestC18Burst: 2-8 users post 0..6000-byte articles (optionally replies) to one category at the same instant in 3-10 rounds, with a "
+                "concurrent delete of an older article; every accepted post present once under its own id with its content, older articles unchanged, "
+                "reload reproduces the category; non-trivial = >= 1 delete and >= 2 posts in the history (every step lists everything), every burst; distinct = hash(history)",
         "assumptions": ["creating over an existing name, replies to a missing parent and posts into a missing category are excluded (outside the statement / C03)",
                         "text starting with a newline is excluded from the state machine (known finding yaml-leading-newline, decided by TestC18LeadingNewline)"],
-        "quick": {"runs": [{"test": "^TestC18$", "shards": 16, "checks": 60, "timeout": 600},
+        "quick": {"runs": [{"test": "^TestC18$", "shards": 12, "checks": 60, "timeout": 600},
+                           {"test": "^TestC18Burst$", "shards": 4, "checks": 40, "timeout": 600},
                            {"test": "^TestC18LeadingNewline$", "shards": 1, "checks": 20, "timeout": 300}]},
-        "thorough": {"runs": [{"test": "^TestC18$", "shards": 16, "checks": 2500, "timeout": 3400},
+        "thorough": {"runs": [{"test": "^TestC18$", "shards": 12, "checks": 2500, "timeout": 3400},
+                              {"test": "^TestC18Burst$", "shards": 4, "checks": 2500, "timeout": 3400},
                               {"test": "^TestC18LeadingNewline$", "shards": 1, "checks": 200, "timeout": 600}]},
     },
     "C12": {
